@@ -70,6 +70,46 @@ fn fresh(mode: GameMode, pts: &[PathControlPoint], len: Option<f64>) -> Curve {
     Curve::new(mode, pts, len, &mut CurveBuffers::default())
 }
 
+/// the curve of the request obtained through the other public routes (borrowed on buffers that another
+/// computation has used, the slider path's cache after its points / length were set through the mutators)
+/// must be the curve a fresh owned computation gives: the clauses of C16 and C19 are about "the computed
+/// curve" whichever way a caller obtains it. Self-contained (replays on a single request).
+fn routes_agree(mode: GameMode, pts: &[PathControlPoint], len: Option<f64>) -> Result<(), String> {
+    let want = fresh(mode, pts, len);
+    let dirty = vec![
+        PathControlPoint { pos: Pos::new(0.0, 0.0), path_type: Some(rosu_map::section::hit_objects::PathType::LINEAR) },
+        PathControlPoint { pos: Pos::new(100.0, 0.0), path_type: None },
+        PathControlPoint { pos: Pos::new(100.0, 100.0), path_type: None },
+    ];
+    let mut bufs = CurveBuffers::default();
+    {
+        let _ = BorrowedCurve::new(mode, &dirty, None, &mut bufs);
+    }
+    {
+        let b = BorrowedCurve::new(mode, pts, len, &mut bufs);
+        if !(b.path().len() == want.path().len()
+            && b.lengths().len() == want.lengths().len()
+            && b.path().iter().zip(want.path()).all(|(a, c)| same_pos(*a, *c))
+            && b.lengths().iter().zip(want.lengths()).all(|(a, c)| a.to_bits() == c.to_bits()))
+        {
+            return Err("the borrowed curve computed on reused buffers differs from the fresh owned curve".into());
+        }
+    }
+    let mut sp = SliderPath::new(mode, pts.to_vec(), None);
+    let _ = sp.curve();
+    *sp.expected_dist_mut() = len;
+    if !same_curve(want.path(), want.lengths(), sp.curve()) {
+        return Err("the slider path's curve after setting the requested length through expected_dist_mut differs from the fresh owned curve".into());
+    }
+    let mut sp = SliderPath::new(mode, dirty, len);
+    let _ = sp.curve_with_bufs(&mut bufs);
+    *sp.control_points_mut() = pts.to_vec();
+    if !same_curve(want.path(), want.lengths(), sp.curve_with_bufs(&mut bufs)) {
+        return Err("the slider path's curve after replacing the control points through control_points_mut differs from the fresh owned curve".into());
+    }
+    Ok(())
+}
+
 // ---------------------------------------------------------------------------------------------- C16
 
 fn has_catmull(pts: &[PathControlPoint]) -> bool {
@@ -100,6 +140,9 @@ fn c16(toks: &[&str]) -> String {
     let Some(req) = parse_curve_req(toks) else { return "SKIP bad-request".into() };
     if !finite_pts(&req.pts) {
         return "SKIP non-finite-coordinates".into();
+    }
+    if let Err(e) = routes_agree(req.mode, &req.pts, req.len) {
+        return format!("FAIL api-route: {e}");
     }
     let nat = fresh(req.mode, &req.pts, None);
     if nat.path().iter().any(|p| !(p.x.is_finite() && p.y.is_finite())) {
@@ -353,15 +396,21 @@ fn segments(mode: GameMode, pts: &[PathControlPoint], slack: f64) -> Vec<Seg> {
                 SplineType::PerfectCurve => {
                     let mut alts = Vec::new();
                     let mut must_arc = false;
+                    let mut must_bezier = false;
                     if vs.len() == 3 {
                         if let Some(arc) = arc_through(vs[0], vs[1], vs[2]) {
                             if let Exact::Arc { r, sweep, .. } = arc {
                                 let cr = cross(sub(vs[1], vs[0]), sub(vs[2], vs[0])).abs();
                                 let need = if r > 0.05 { sweep.abs() / (2.0 * (1.0 - 0.1 / r).acos()) } else { 2.0 };
                                 must_arc = cr > 1.0 && need < 900.0;
+                                // "enormous perfect curves fall back to a Bezier": the code refuses arcs of >= 1000 sub-points; its
+                                // f32 evaluation of the divisor is within 10 % of `need` for radii below 5e5
+                                must_bezier = need > 1300.0 && r < 5e5;
                                 // n = ceil(range/div) points make n-1 intervals: the per-interval angle can reach 2*div for n = 2,
                                 // so the sagitta bound derived from the constants is 0.1 * (n/(n-1))^2 <= 0.4
-                                alts.push((vec![Sampled::new(arc)], 0.1 + slack + 1e-5 * r, 0.4 + slack + 1e-5 * r));
+                                if !must_bezier {
+                                    alts.push((vec![Sampled::new(arc)], 0.1 + slack + 1e-5 * r, 0.4 + slack + 1e-5 * r));
+                                }
                             }
                         }
                     }
@@ -586,6 +635,9 @@ fn c19(toks: &[&str]) -> String {
         if !l.is_finite() {
             return "SKIP L-outside-domain".into();
         }
+    }
+    if let Err(e) = routes_agree(req.mode, &req.pts, req.len) {
+        return format!("FAIL api-route: {e}");
     }
     let c = fresh(req.mode, &req.pts, req.len);
     let path = c.path();
